@@ -333,6 +333,8 @@ type Dialer struct {
 	C2S, S2C StreamOpts
 	// OnConn is told about every connection made (client side conn).
 	OnConn func(c *Conn)
+	// PerConn, when set, supplies the options per connection id (overrides C2S / S2C).
+	PerConn func(id int) (c2s, s2c StreamOpts)
 }
 
 func (n *Net) findListener(a *net.TCPAddr) *Listener {
@@ -367,7 +369,11 @@ func (d Dialer) DialContext(ctx context.Context, network, address string) (net.C
 	t1 := &StreamTap{ConnID: id, Dir: "c2s", From: la, To: a}
 	t2 := &StreamTap{ConnID: id, Dir: "s2c", From: a, To: la}
 	d.N.Streams = append(d.N.Streams, t1, t2)
-	c2s, s2c := &pipe{opts: d.C2S, tap: t1}, &pipe{opts: d.S2C, tap: t2}
+	oc, os := d.C2S, d.S2C
+	if d.PerConn != nil {
+		oc, os = d.PerConn(id)
+	}
+	c2s, s2c := &pipe{opts: oc, tap: t1}, &pipe{opts: os, tap: t2}
 	c := &Conn{n: d.N, id: id, rd: s2c, wr: c2s, local: la, remot: a}
 	s := &Conn{n: d.N, id: id, rd: c2s, wr: s2c, local: a, remot: la}
 	c.peer, s.peer = s, c
